@@ -271,8 +271,15 @@ def run(ctx, report):
         R3.violation('_dis:offset/l', '_dis:offset/l:%s/%s' % ([u(v) for v in stores.get('self.offset', [])], [u(v) for v in lv]),
                      'decoder does not record offset = entry offset and l = bytes consumed', where(arch, dis))
 
+    # ---------------------------------------------------------------- D4 renamed row copies keep the attributes of their row
+    R4 = report.rule('C17.D4', 'a row copy that special_opcodes swaps in (iretw, pushfw, movsw, lfence ...) is a copy of the row it stands for, so that its flow attributes are that row\'s', floor=10)
+    from ..stringops import renamed_copy_rule
+    renamed_copy_rule(M, R4, 'the control-flow attributes (breakflow / splitflow / dstflow) are those')
+
+
 
 MUTANTS = [
+    ('iretw-copy-of-into', 'miasmx/arch/ia32_arch.py', "        pm = self.db_mnemo[0xcf]\n        self.iretw_m", "        pm = self.db_mnemo[0xce]\n        self.iretw_m", 'C17.D4'),
     ('dstflow-farcall-raises', 'miasmx/arch/ia32_arch.py', '        if self.m.name == "jmpf" or \\\n                (self.m.name == "call" and len(self.arg) == 2):', '        if self.m.name == "jmpf":', 'C17.D3'),
     ('hlt-noflow', 'miasmx/arch/ia32_arch.py',
      'addop("hlt",   [0xF4],             noafs, no_rm         , {}                 ,{}                , {bkf:True}                  )',
